@@ -126,7 +126,18 @@ func buildReplayBinary(repo string, spec LoadSpec, stubs []StubSpec, harnessName
 			reM = regexp.MustCompile(`([A-Za-z_][\w.]*)\.` + regexp.QuoteMeta(ss.Method) + `\(`)
 			reM0 = regexp.MustCompile(`([A-Za-z_][\w.]*)\.` + regexp.QuoteMeta(ss.Method) + `\(\)`)
 		}
-		for _, f := range ss.Files {
+		files := ss.Files
+		if len(files) == 1 && files[0] == "*" {
+			files = nil
+			ents, _ := os.ReadDir(sdir)
+			for _, e := range ents {
+				n := e.Name()
+				if strings.HasSuffix(n, ".go") && !strings.HasSuffix(n, "_test.go") && !strings.HasPrefix(n, "zz_verif_") {
+					files = append(files, n)
+				}
+			}
+		}
+		for _, f := range files {
 			p := filepath.Join(sdir, f)
 			src, ok := ov[p]
 			if !ok {
@@ -148,6 +159,9 @@ func buildReplayBinary(repo string, spec LoadSpec, stubs []StubSpec, harnessName
 				lines[i] = re.ReplaceAllString(l, "${1}"+repl+"(")
 			}
 			out := strings.Join(lines, "\n")
+			if out == string(src) {
+				continue
+			}
 			if reM == nil && strings.Contains(pat, ".") {
 				out += "\n\nvar _ = " + pat + "\n"
 			}
